@@ -33,6 +33,8 @@ def _write(self, mediator):
         r = _orig_write(self, mediator)
     finally:
         sys.stdout = so
+    if p["mode"] != "run":
+        return r          # a resumed run must not overwrite the kept copies of the original run's dumps
     t = tracer.TRACER
     k = len(DUMPS)
     dst = "%s.%d" % (self._output_filename, k)
